@@ -3,16 +3,16 @@ From MV Require Import C04.Model.
 Local Open Scope Z_scope.
 
 Definition holds (p : lpc) : bool :=
-  match p with LEnterSeg | LCs | LExitSeg | LRel => true | _ => false end.
+  match p with LEnterSeg | LNest | LCs | LExitSeg | LRel => true | _ => false end.
 Definition inside (p : lpc) : bool :=
-  match p with LCs | LExitSeg => true | _ => false end.
+  match p with LNest | LCs | LExitSeg => true | _ => false end.
 
 (* memory orders that make the hand-over of the protected data sound *)
 Definition lock_mo_ok (P : params) (k : lkind) : bool :=
   match k with
   | KSpin => is_acq (mo_spin_tas P) && is_rel (mo_spin_clear P)
   | KSync => is_acq (mo_sync_cas P) && is_rel (mo_sync_store P)
-  | KMutex | KTry => true
+  | KMutex | KTry | KNest | KNestTry => true
   end.
 
 Record LInv (s : lsys) : Prop := {
@@ -139,8 +139,18 @@ Proof.
         constructor; simpl; [auto | g_excl Hex | g_free Hfree t | g_incs0 Hi0 t | g_incs1 Hi1 Hex t | auto].
       * inv_some Hs.
         constructor; simpl; [auto | g_excl Hex | g_free Hfree t | g_incs0 Hi0 t | g_incs1 Hi1 Hex t | auto].
+    + (* nested client, contenders lock: as the mutex *)
+      destruct (Z.eqb_spec (l_lock s) 0) as [L0|L0]; [|discriminate]. inv_some Hs.
+      pose proof (Hfree L0) as Hnobody.
+      constructor; simpl; [auto | g_excl Hex | g_free Hfree t | g_incs0 Hi0 t | g_incs1 Hi1 Hex t | auto].
+    + (* nested client, contenders trylock once *)
+      destruct (Z.eqb_spec (l_lock s) 0) as [L0|L0].
+      * inv_some Hs. pose proof (Hfree L0) as Hnobody.
+        constructor; simpl; [auto | g_excl Hex | g_free Hfree t | g_incs0 Hi0 t | g_incs1 Hi1 Hex t | auto].
+      * destruct (Nat.eqb t 0); [discriminate|]. inv_some Hs.
+        constructor; simpl; [auto | g_excl Hex | g_free Hfree t | g_incs0 Hi0 t | g_incs1 Hi1 Hex t | auto].
   - (* LAfterFail *)
-    destruct (l_kind s); inv_some Hs;
+    destruct (l_kind s); try destruct (pred (l_iters (l_thr s t))); inv_some Hs;
       (constructor; simpl; [auto | g_excl Hex | g_free Hfree t | g_incs0 Hi0 t | g_incs1 Hi1 Hex t | auto]).
   - (* LYield *)
     inv_some Hs;
@@ -154,8 +164,12 @@ Proof.
     { intros a. destruct (inside (l_pc (l_thr s a))) eqn:Ei; [|reflexivity].
       assert (a = t) by (apply Hex; [now apply inside_holds|assumption]).
       subst. congruence. }
-    pose proof (Hi0 Hnone) as I0. rewrite I0 in Hs. simpl in Hs. inv_some Hs.
-    constructor; simpl; [auto | g_excl Hex | g_free Hfree t | g_incs0 Hi0 t | g_incs1 Hi1 Hex t | auto].
+    pose proof (Hi0 Hnone) as I0. rewrite I0 in Hs. simpl in Hs.
+    destruct (nests (l_kind s) && Nat.eqb t 0); inv_some Hs;
+    (constructor; simpl; [auto | g_excl Hex | g_free Hfree t | g_incs0 Hi0 t | g_incs1 Hi1 Hex t | auto]).
+  - (* LNest: the caller holds the mutex, so it is not free: the nested lock is not enabled *)
+    destruct (Z.eqb_spec (l_lock s) 0) as [L0|L0]; [|discriminate].
+    exfalso. pose proof (Hfree L0 t) as Hc. congruence.
   - (* LCs *)
     inv_some Hs.
     constructor; simpl; [auto | g_excl Hex | g_free Hfree t | g_incs0 Hi0 t | g_incs1 Hi1 Hex t | auto].
@@ -255,14 +269,25 @@ Proof.
       * inv_some Hs. pose proof (Vfr L0) as Sf. pose proof (Hfree L0) as Hnobody.
         v_all Vse Vho Hex Hfree t.
       * inv_some Hs. v_all Vse Vho Hex Hfree t.
-  - destruct (l_kind s); inv_some Hs; v_all Vse Vho Hex Hfree t.
+    + destruct (Z.eqb_spec (l_lock s) 0) as [L0|L0]; [|discriminate]. inv_some Hs.
+      pose proof (Vfr L0) as Sf. pose proof (Hfree L0) as Hnobody.
+      v_all Vse Vho Hex Hfree t.
+    + destruct (Z.eqb_spec (l_lock s) 0) as [L0|L0].
+      * inv_some Hs. pose proof (Vfr L0) as Sf. pose proof (Hfree L0) as Hnobody.
+        v_all Vse Vho Hex Hfree t.
+      * destruct (Nat.eqb t 0); [discriminate|]. inv_some Hs. v_all Vse Vho Hex Hfree t.
+  - destruct (l_kind s); try destruct (pred (l_iters (l_thr s t))); inv_some Hs; v_all Vse Vho Hex Hfree t.
   - inv_some Hs; v_all Vse Vho Hex Hfree t.
   - destruct (l_lock s =? 1); [destruct (Nat.eqb ch 2); [|destruct (Nat.eqb ch 3)]|]; inv_some Hs; v_all Vse Vho Hex Hfree t.
   - discriminate.
   - (* LEnterSeg: the read of the counter is covered *)
     pose proof (Vho t Ht) as Hcov.
-    inv_some Hs. constructor; simpl; [v_stamp | v_seen Vse | v_free Hfree t | v_holder Vse Vho Hex | ].
-    rewrite Hcov, Nat.eqb_refl. assumption.
+    destruct (nests (l_kind s) && Nat.eqb t 0); inv_some Hs;
+    (constructor; simpl; [v_stamp | v_seen Vse | v_free Hfree t | v_holder Vse Vho Hex | ]);
+    rewrite Hcov, Nat.eqb_refl; assumption.
+  - (* LNest: not enabled while the caller holds the mutex *)
+    destruct (Z.eqb_spec (l_lock s) 0) as [L0|L0]; [|discriminate].
+    exfalso. pose proof (Hfree L0 t) as Hc. congruence.
   - inv_some Hs; v_all Vse Vho Hex Hfree t.
   - (* LExitSeg: the write advances the version; only the holder's view follows *)
     inv_some Hs. v_all Vse Vho Hex Hfree t.
@@ -271,6 +296,8 @@ Proof.
     destruct (l_kind s) eqn:Ek; simpl in Hmo; inv_some Hs.
     + apply andb_prop in Hmo as [Ma Mr]. v_all Vse Vho Hex Hfree t.
     + apply andb_prop in Hmo as [Ma Mr]. v_all Vse Vho Hex Hfree t.
+    + v_all Vse Vho Hex Hfree t.
+    + v_all Vse Vho Hex Hfree t.
     + v_all Vse Vho Hex Hfree t.
     + v_all Vse Vho Hex Hfree t.
   - inv_some Hs; v_all Vse Vho Hex Hfree t.
@@ -335,3 +362,30 @@ Example trylock_nonvacuous :
   let s := exec lsys (lstep any_params true) (linit KTry 2 1) [(0,0);(0,0);(0,0);(1,0);(1,0)]%nat in
   holds (l_pc (l_thr s 0%nat)) = true /\ l_pc (l_thr s 1%nat) = LAfterFail.
 Proof. vm_compute. split; reflexivity. Qed.
+
+(* A nested muggle_mutex_lock by the holder (thread 0 of the nested client) never returns: while thread 0 is
+   at the nested lock it holds the mutex, the operation is not enabled under any schedule choice, and no other
+   thread holds.  On the implementation side this is the scheduler's DEADLOCK event once the contenders are
+   blocked or have given up. *)
+Theorem nested_lock_by_owner_is_stuck P k n it sched ch :
+  let s := exec lsys (lstep P true) (linit k n it) sched in
+  l_pc (l_thr s 0%nat) = LNest ->
+  lstep P true s 0%nat ch = None /\ l_lock s = 1 /\
+  (forall u, holds (l_pc (l_thr s u)) = true -> u = 0%nat) /\ l_overlaps s = 0%nat.
+Proof.
+  intros s Hn. pose proof (lock_mutual_exclusion P k n it sched) as I. fold s in I.
+  destruct I as [H01 Hex Hfree Hi0 Hi1 Hov].
+  assert (Hh : holds (l_pc (l_thr s 0%nat)) = true) by (rewrite Hn; reflexivity).
+  assert (L1 : l_lock s = 1).
+  { destruct H01 as [L0|L1]; [|assumption]. pose proof (Hfree L0 0%nat). congruence. }
+  split; [|split; [assumption|split; [|assumption]]].
+  - unfold lstep. destruct (Nat.leb (l_n s) 0); [reflexivity|]. rewrite Hn, L1. reflexivity.
+  - intros u Hu. apply Hex; assumption.
+Qed.
+
+(* the state is reachable: thread 0 locks, enters, and is at the nested lock while thread 1 is refused *)
+Example nested_lock_nonvacuous :
+  let s := exec lsys (lstep any_params true) (linit KNestTry 2 1) [(0,0);(0,0);(0,0);(1,0);(1,0);(1,0)]%nat in
+  l_pc (l_thr s 0%nat) = LNest /\ l_pc (l_thr s 1%nat) = LFin /\
+  lstep any_params true s 0%nat 0%nat = None.
+Proof. vm_compute. repeat split; reflexivity. Qed.
